@@ -187,3 +187,43 @@ def run(run: common.Run):
                                     tie_geometry=tie_geometry(src, ref)))
         run.sample(dict(case={k: case[k] for k in ('i', 'model', 'kernel', 'halvings', 'pattern', 'upsampling')},
                         proc_ref=proc_ref, kept=int(expect.sum()), source_valid=int(sv.sum())), 4)
+    degenerate_leg(run, tmp)
+
+
+def degenerate_leg(run, tmp):
+    """
+    Degenerate kernel windows (finding D16, from the counterexample `partial_mask_needs_total_fit` of Props/E2EPartial.lean):
+    with the gain-offset model a window in which the source is constant has no least-squares solution, the pixel carries no
+    parameters and partial masking erodes around it.  Whether such a window is constant can depend on where a block's input
+    window cuts it, so the mask depends on the partition.  Same-grid pairs whose source is constant along rows with the row
+    pattern 1 2 1 2 2 1 (period 6), kernel 3 x 1: one block vs several blocks.
+    """
+    from homonim.errors import BlockSizeError
+    for k, (H, W, rows) in enumerate([(12, 6, [1, 2, 1, 2, 2, 1]), (18, 8, [5, 9, 5, 9, 9, 5]), (12, 7, [1, 2, 1, 2, 2, 1])]):
+        g = rasters.Grid(8 * 1000 + 64 * k, 8 * 2000, 8, 8, W, H)
+        s = np.array([[[float(rows[r % 6])] * W for r in range(H)]])
+        r = np.full((1, H, W), 3.0)
+        pair = fusion.write_pair(tmp, f'c17deg{k}', g, g, s, r, None, None)
+        case = dict(i=900_000 + k, op='degenerate windows', shape=(H, W), rows=rows, model='gain-offset', kernel=(3, 1))
+        masks = []
+        for hv in (0, 1, 2):
+            try:
+                res = fusion.run_fuse(pair.src_path, pair.ref_path, tmp / 'c17deg_out.tif', model='gain-offset', kernel_shape=(3, 1),
+                                      param=False, threads=1, max_block_mem=fusion.block_mem_for(hv, H, W, 8, 8, True),
+                                      model_config=dict(mask_partial=True, r2_inpaint_thresh=None))
+            except BlockSizeError:
+                continue
+            except Exception as ex:
+                run.fail(dict(case, halvings=hv), f'fusion raised {type(ex).__name__}: {ex}', signature=dict(kind='raises'))
+                continue
+            run.evaluations += 1
+            run.hist['degenerate-window cases'] += 1
+            masks.append((hv, res.corr_mask))
+        for hv, m in masks[1:]:
+            if not np.array_equal(m, masks[0][1]):
+                d = np.argwhere(m != masks[0][1])
+                run.fail(dict(case, halvings=[masks[0][0], hv]),
+                         f'partial mask depends on the block partition at {len(d)} pixels (e.g. {d[0].tolist()}) on a source with '
+                         f'locally constant kernel windows (gain-offset model)',
+                         signature=dict(kind='partition-dependent', proc='ref', degenerate_fit=True))
+                break
